@@ -135,7 +135,8 @@ def run(ck):
         "message handling after reassembly (handleMessage) is covered at trace level by the oracle, the Coq delivery rule (Apci/Deliver.v) abstracts the N(R) check as a parameter",
     ]
     ck.rule = ("streams: fixed boundary streams + random frame sequences (mostly valid, ~25% with one malformed element); every stream is replayed under: one chunk, "
-               "one-octet dribble, every 2-chunk cut (exhaustive up to the tier's length limit), random multi-cuts; non-trivial = distinct (stream, chunking) with at least one complete frame")
+               "one-octet dribble, every 2-chunk cut (exhaustive up to the tier's length limit), random multi-cuts; non-trivial = distinct (stream, chunking, receive function: server / client) with at least one complete frame; "
+               "evaluations = executions (every unit script runs on both receive functions and counts twice, every trace script once)")
     ck.coq("C05")
     hs, hc, hsrv = harnesses()
     try:
@@ -160,11 +161,13 @@ def run(ck):
     rc = runner.run_batch(hc, unit_scripts)
     rm = runner.run_batch(mexe, unit_scripts) if mexe else {}
     ndiff = 0
+    nunit = 0
     for sid, lines in unit_scripts:
         tag, data, ch = meta[sid]
-        ck.evaluations += 1
+        nunit += 1
         for role, r in (("server", rs), ("client", rc)):
             o = r.get(sid, dict(out=[], crash=None))
+            ck.evaluations += 1         # one evaluation = one (stream, chunking) executed by one of the two receive functions
             if o["crash"]:
                 ck.fail("input", "crash:%s:%s" % (o["crash"]["kind"], o["crash"]["site"]),
                         "receiveMessage (%s) aborted: %s at %s" % (role, o["crash"]["kind"], o["crash"]["site"]), {"script": lines, "role": role, "stderr": o["crash"]["text"]})
@@ -193,7 +196,7 @@ def run(ck):
                         {"script": lines, "role": role, "observed": o["out"][-3:]})
             if frames:
                 ck.nontriv((tag, tuple(len(c) for c in ch), role))
-        if ck.evaluations % 997 == 1:
+        if nunit % 997 == 1:
             ck.sample({"stream": data.hex(), "chunks": [len(c) for c in ch], "server_calls": rs.get(sid, {}).get("out", [])[:4]})
     # ---- trace level: full server under segmentation
     tr_scripts, tmeta = [], {}
@@ -396,5 +399,3 @@ def replay(ck, path):
     if res["replay"]["crash"]:
         print(res["replay"]["crash"]["text"])
     ck.evaluations = 1
-    ck.nontriv(1)
-    ck.nontriv(2)
